@@ -187,6 +187,7 @@ class Obligation:
 class Ctx:
     cur = None
     MAX_DECISIONS = 4000
+    FEAS_TIMEOUT_MS = 2000
 
     def __init__(self, prefix=()):
         self.prefix = list(prefix)
@@ -197,7 +198,7 @@ class Ctx:
         self.cutdefs = []        # fresh == actual equalities of hard cuts (for un-abstracted re-check)
         self.obls = []
         self.solver = z3.Solver()
-        self.solver.set("timeout", 4000)
+        self.solver.set("timeout", self.FEAS_TIMEOUT_MS)
         self.memo = {}           # functional abstractions (softmax, ...) keyed on argument terms
         self.intcache = {}       # symbolic index term id -> decided value
         self.ordinals = {}
@@ -365,7 +366,16 @@ class Ctx:
             self.cutdefs.append(fr == actual)
         for c in facts:
             self.facts.append([c, False])
-            self.solver.add(c)
+        self.rebuild_solver()
+
+    def rebuild_solver(self):
+        """feasibility solver over the current (un-dropped) hypotheses only: fewer hypotheses = over-approximation = sound"""
+        from .solve import relevant_axioms
+        self.solver = z3.Solver()
+        self.solver.set("timeout", self.FEAS_TIMEOUT_MS)
+        hy = self.hyps()
+        self.solver.add(*hy)
+        self.solver.add(*relevant_axioms(self.axioms, hy))
 
     # -- ownership / frames --------------------------------------------------------------------
     def set_owner(self, arr, tag):
